@@ -175,11 +175,23 @@ class Variable(_Attrs):
         out.extend([slice(None)] * (nd - len(out)))
         return tuple(out)
 
-    def _positions(self, key, for_write=False):
+    def _positions(self, key, for_write=False, value_shape=None):
         """per-dimension (positions list or int, drop flag); extends unlimited dimensions on write"""
         d = self.__dict__
         self._sync_shape()
         key = self._expand(key, for_write)
+        if for_write and value_shape is not None:
+            # netCDF4: an open-ended slice over an unlimited dimension grows it to hold the assigned data
+            kept = [i for i, k in enumerate(key) if not isinstance(k, (int, np.integer))]
+            if len(value_shape) == len(kept):
+                for j, i in enumerate(kept):
+                    k, dn = key[i], d["dimensions"][i]
+                    dim = d["_ds"].dimensions[dn]
+                    if isinstance(k, slice) and k.stop is None and k.step in (None, 1) and dim.isunlimited():
+                        start = k.start or 0
+                        if start >= 0 and start + value_shape[j] > dim._size:
+                            dim._size = start + value_shape[j]
+                self._sync_shape()
         res = []
         for k, dn, n in zip(key, d["dimensions"], d["_data"].shape):
             dim = d["_ds"].dimensions[dn]
@@ -240,8 +252,6 @@ class Variable(_Attrs):
         d = self.__dict__
         if d["_ds"]._mode == "r":
             raise RuntimeError("NetCDF: Write to read only")
-        pos = self._positions(key, for_write=True)
-        data = d["_data"]
         if np.ma.isMaskedArray(value):
             value = value.filled(d["_fill"])
         if d["dtype"] is str:
@@ -250,6 +260,8 @@ class Variable(_Attrs):
             value = np.asarray(value)
             if value.dtype.kind in "OUS":
                 raise TypeError("cannot write %s data into a numeric variable" % value.dtype)
+        pos = self._positions(key, for_write=True, value_shape=value.shape)
+        data = d["_data"]
         if not pos:
             data[()] = value
             return
